@@ -199,11 +199,6 @@ def _validate_chunk(recs):
     return n, fails
 
 
-def _conv_class(sat):
-    n = len(sat)
-    return "digits=%d" % n
-
-
 def _conv_chunk(args):
     recs, check_r2 = args
     drv = _drv()
